@@ -27,7 +27,11 @@ pub fn render(p: &J, l: usize) -> String {
     let mut s = String::new();
     let hs = size(p["hs"].as_str().unwrap(), l);
     if hs > 0 {
-        s.push_str(&format!("[{}]\n", path(hs)));
+        if p["hk"] == "aot" {
+            s.push_str(&format!("[[{}]]\n", path(hs)));
+        } else {
+            s.push_str(&format!("[{}]\n", path(hs)));
+        }
     }
     s.push_str(&path(size(p["ks"].as_str().unwrap(), l)));
     s.push_str(" = ");
@@ -171,4 +175,18 @@ pub fn depth_events(args: &Args) {
                                    "res": r["res"], "depth": r["depth"], "limit_err": r["limit_err"], "ops_failed": r["ops_failed"]})).unwrap();
     }
     let _ = std::fs::write(&progress, "done");
+}
+
+/// --in patterns.ndjson --out texts.ndjson : the patterns as texts (inputs for the entry-point exploration of C04)
+pub fn depth_render(args: &Args) {
+    let recs = read_ndjson(args.req("in"));
+    let mut out = out_writer(args);
+    let l = measure_limit();
+    for (i, p) in recs.iter().enumerate() {
+        let text = render(p, l);
+        if text.len() > 40_000 {
+            continue;
+        }
+        writeln!(out, "{}", json!({"id": format!("depth-pattern{i}"), "text": crate::proj::cps(&text)})).unwrap();
+    }
 }
